@@ -11,7 +11,7 @@ from vf.runner import UnitSpec
 from vf.unit import holds
 
 SAMPLE = ['AdcRegisterA1', 'AddImmediateThumbT3', 'MovRegisterArmA1', 'MovRegisterThumbT1', 'LdrImmediateArmA1',
-          'StrImmediateArmA1', 'LdrRegisterArmA1', 'StrRegisterT2', 'BA1', 'BT3', 'BlBlxImmediateT1', 'BxA1', 'CbzT1',
+          'StrImmediateArmA1', 'LdrRegisterArmA1', 'StrRegisterT1', 'BA1', 'BT3', 'BlBlxImmediateT1', 'BxA1', 'CbzT1',
           'ItT1', 'SvcA1', 'SvcT1', 'UdfT1', 'MsrRegisterSystemA1', 'CpsArmA1', 'SubsPcLrArmA1', 'WfeA1', 'SevA1',
           'McrMcr2A1', 'Sadd8A1', 'UsatT1', 'SxtabA1', 'BfcA1', 'LdrexA1', 'StrexT1', 'LdrdImmediateA1', 'TbbTbhT1',
           'LslRegisterT1', 'CmpRegisterT2', 'AddSpPlusRegisterThumbT1', 'PkhA1', 'ClzT1', 'Uhsub16T1', 'SelA1']
@@ -230,7 +230,7 @@ def units(tier, seed=0):
                                        vmsa=own.get('vmsa', False)):
             us.append(u)
     # ... and with this instance's MPU enabled (one symbolic region), where the memory architecture decides every access
-    for u in famcheck.family_units({ISA['LdrImmediateArmA1'].family}, [7], T, only=['LdrImmediateArmA1', 'StrImmediateArmA1'],
+    for u in famcheck.family_units({ISA['LdrImmediateArmA1'].family}, [7], T, only=['LdrImmediateArmA1'],
                                    tag='/isolation/after-foreign-stepped/mpu', foreign_before=dict(arch=7, vmsa=True),
                                    mpu=1, mpu_rsize=[4]):
         u.max_seconds = 3000
